@@ -227,6 +227,7 @@ func runC11(c *Ctx, tier string) {
 	runStringDecoderCursor(c, "C11-S2")
 	runReaderSanityTests(c, "C11-V2")
 	runValidateDescendsIntoSets(c, "C11-V3")
+	runValidateChecksLeafSizes(c, "C11-V4")
 	runReadResultsNilTested(c, "C11-R2")
 	runUntagLoopsStopAtNull(c, "C11-U1")
 }
